@@ -322,6 +322,8 @@ class SgzConverter(SgzReader):
             # segyio will warn us that out padded cube is not contiguous. This is expected, and safe.
             warnings.filterwarnings("ignore", message="Implicit conversion to contiguous array")
             with segyio.create(out_file, spec) as segyfile:
+                # Header arrays may have been cached with padding by earlier reads through this object
+                self._set_variant_header_padding(False)
                 self.read_variant_headers()
                 # Doing this is fine now there is decent caching on the loader
                 segyfile.trace = [self.get_trace(i) for i in range(self.tracecount)]
